@@ -1,10 +1,10 @@
 package checks
 
 import (
-	"os"
 	"fmt"
 	"go/ast"
 	"go/types"
+	"os"
 	"sort"
 	"strconv"
 	"strings"
@@ -159,13 +159,13 @@ func runConstructor(p *packages.Package, d *declIndex, fd *ast.FuncDecl) (ok []c
 
 // methodPath is one path of a method run on a constructed object.
 type methodPath struct {
-	conds  string
-	condvs []vn.CondV
-	result *sym.Term // final value of the first scalar parameter (r)
-	ret    vn.Value
-	panics bool
+	conds   string
+	condvs  []vn.CondV
+	result  *sym.Term // final value of the first scalar parameter (r)
+	ret     vn.Value
+	panics  bool
 	written bool
-	recv   *vn.StructVal
+	recv    *vn.StructVal
 }
 
 // runMethod interprets method fd on (a deep copy of) obj. The scalar parameters keep their source names.
@@ -325,10 +325,10 @@ type distEntry struct {
 	why      string
 }
 
-func lg(t *sym.Term) *sym.Term  { return sym.Fn("lgamma", t) }
-func ln(t *sym.Term) *sym.Term  { return sym.Fn("log", t) }
-func one() *sym.Term            { return sym.One() }
-func num(a, b int64) *sym.Term  { return sym.Rat(a, b) }
+func lg(t *sym.Term) *sym.Term { return sym.Fn("lgamma", t) }
+func ln(t *sym.Term) *sym.Term { return sym.Fn("log", t) }
+func one() *sym.Term           { return sym.One() }
+func num(a, b int64) *sym.Term { return sym.Rat(a, b) }
 
 // scalarDistTable: the textbook log-densities under the parametrisation of each constructor.
 var scalarDistTable = []distEntry{
@@ -483,6 +483,7 @@ func checkC14(c *core.Ctx) error {
 	checkIid(c, p, d)
 	checkCategorical(c, p, d)
 	checkTraceOfProduct(c)
+	checkIntegerDivisionInConstants(c)
 	return nil
 }
 
@@ -524,80 +525,81 @@ func checkIid(c *core.Ctx, ps *packages.Package, d *declIndex) {
 	for _, variant := range []struct {
 		n, len int64
 	}{{nfix, nfix}, {-1, 2}} {
-	n := variant.n
-	tag := ""
-	if n < 0 {
-		tag = " (variable length, n = -1)"
-	}
-	cfg := vn.Config{Pkg: pv, TypeName: "Real64", Spec: distSpec, InlineOps: inlineOps, Decl: d.find, ParamNames: true, MaxDepth: 6, UnrollConst: true,
-		ParamValues: map[string]vn.Value{"distribution": vn.DeepCopy(inner[0].obj, nil), "n": sym.Int(n)}}
-	paths, u := vn.Run(cfg, ctor)
-	if u != nil {
-		c.Unknown("C14.R6", cons, "constructor interpreted"+tag, u.Pos, "left the interpreter's idiom set: "+u.Msg)
-		continue
-	}
-	var obj *vn.StructVal
-	for _, pa := range paths {
-		if t, ok := pa.Ret.(vn.Tuple); ok && len(t) == 2 {
-			if o, isObj := t[0].(*vn.StructVal); isObj {
-				obj = o
+		n := variant.n
+		tag := ""
+		if n < 0 {
+			tag = " (variable length, n = -1)"
+		}
+		cfg := vn.Config{Pkg: pv, TypeName: "Real64", Spec: distSpec, InlineOps: inlineOps, Decl: d.find, ParamNames: true, MaxDepth: 6, UnrollConst: true,
+			ParamValues: map[string]vn.Value{"distribution": vn.DeepCopy(inner[0].obj, nil), "n": sym.Int(n)}}
+		paths, u := vn.Run(cfg, ctor)
+		if u != nil {
+			c.Unknown("C14.R6", cons, "constructor interpreted"+tag, u.Pos, "left the interpreter's idiom set: "+u.Msg)
+			continue
+		}
+		var obj *vn.StructVal
+		for _, pa := range paths {
+			if t, ok := pa.Ret.(vn.Tuple); ok && len(t) == 2 {
+				if o, isObj := t[0].(*vn.StructVal); isObj {
+					obj = o
+				}
 			}
 		}
-	}
-	if obj == nil {
-		c.Unknown("C14.R6", cons, "constructor has a success path"+tag, ctor.Pos(), "no success path")
-		continue
-	}
-	cfg2 := vn.Config{Pkg: pv, TypeName: "Real64", Spec: distSpec, InlineOps: inlineOps, Decl: d.find, ParamNames: true, MaxDepth: 6, UnrollConst: true,
-		RecvStruct: obj, RecvFresh: true}
-	// the argument is a vector of variant.len independent symbols
-	var xs []*sym.Term
-	for i := int64(0); i < variant.len; i++ {
-		xs = append(xs, symf("x_%d", i))
-	}
-	cfg2.ParamList = []vn.Value{nil, vn.NewLocalVec(xs...)}
-	cfg2.ParamFresh = true
-	elem := func(i int64) *sym.Term { return symf("x_%d", i) }
-	lpaths, u := vn.Run(cfg2, lp)
-	if u != nil {
-		c.Unknown("C14.R6", cons, "LogPdf interpreted"+tag, u.Pos, "left the interpreter's idiom set: "+u.Msg)
-		continue
-	}
-	P := map[string]*sym.Term{"mu": sym.Sym("mu"), "sigma": sym.Sym("sigma")}
-	f := normal.variants[0].formula
-	want := sym.Zero()
-	for i := int64(0); i < variant.len; i++ {
-		want = sym.Add(want, f(P, elem(i)))
-	}
-	for _, pa := range lpaths {
-		if pa.Panic {
+		if obj == nil {
+			c.Unknown("C14.R6", cons, "constructor has a success path"+tag, ctor.Pos(), "no success path")
 			continue
 		}
-		if _, isErr := pa.Ret.(*vn.ErrVal); isErr {
+		cfg2 := vn.Config{Pkg: pv, TypeName: "Real64", Spec: distSpec, InlineOps: inlineOps, Decl: d.find, ParamNames: true, MaxDepth: 6, UnrollConst: true,
+			RecvStruct: obj, RecvFresh: true}
+		// the argument is a vector of variant.len independent symbols
+		var xs []*sym.Term
+		for i := int64(0); i < variant.len; i++ {
+			xs = append(xs, symf("x_%d", i))
+		}
+		cfg2.ParamList = []vn.Value{nil, vn.NewLocalVec(xs...)}
+		cfg2.ParamFresh = true
+		elem := func(i int64) *sym.Term { return symf("x_%d", i) }
+		lpaths, u := vn.Run(cfg2, lp)
+		if u != nil {
+			c.Unknown("C14.R6", cons, "LogPdf interpreted"+tag, u.Pos, "left the interpreter's idiom set: "+u.Msg)
 			continue
 		}
-		var res *sym.Term
-		for _, pvl := range pa.Params {
-			if l, ok := pvl.(*vn.Loc); ok {
-				res = l.Val
-				break
+		P := map[string]*sym.Term{"mu": sym.Sym("mu"), "sigma": sym.Sym("sigma")}
+		f := normal.variants[0].formula
+		want := sym.Zero()
+		for i := int64(0); i < variant.len; i++ {
+			want = sym.Add(want, f(P, elem(i)))
+		}
+		for _, pa := range lpaths {
+			if pa.Panic {
+				continue
 			}
+			if _, isErr := pa.Ret.(*vn.ErrVal); isErr {
+				continue
+			}
+			var res *sym.Term
+			for _, pvl := range pa.Params {
+				if l, ok := pvl.(*vn.Loc); ok {
+					res = l.Val
+					break
+				}
+			}
+			if res == nil || res.DependsOn(sym.SymAtom("-Inf")) {
+				continue
+			}
+			nval++
+			c.Check(sym.Equal(res, want), "C14.R6", cons, fmt.Sprintf("LogPdf is the sum of the %d component log-densities%s [%s]", variant.len, tag, shortConds(pa.CondString())), lp.Pos(),
+				"the product distribution evaluates to "+res.String()+" but the sum of the component log-densities is "+want.String())
 		}
-		if res == nil || res.DependsOn(sym.SymAtom("-Inf")) {
-			continue
-		}
-		nval++
-		c.Check(sym.Equal(res, want), "C14.R6", cons, fmt.Sprintf("LogPdf is the sum of the %d component log-densities%s [%s]", variant.len, tag, shortConds(pa.CondString())), lp.Pos(),
-			"the product distribution evaluates to "+res.String()+" but the sum of the component log-densities is "+want.String())
-	}
 	}
 	c.Check(nval > 0, "C14.R6", cons, "LogPdf has a value-returning path", lp.Pos(), "no value-returning path")
 }
 
 // checkWrappers (R6): the wrapped distributions apply the change of variables. The wrapper is built around a symbolic
 // normal distribution and its LogPdf is compared with the density of the transformed variable:
-//   PdfLogTransform(f, c): X = log(Y + c) ~ f  =>  log f_Y(y) = log f(log(y + c)) - log(y + c), -Inf for y < 0
-//   PdfTranslation(f, c):  X = Y + c ~ f       =>  log f_Y(y) = log f(y + c)
+//
+//	PdfLogTransform(f, c): X = log(Y + c) ~ f  =>  log f_Y(y) = log f(log(y + c)) - log(y + c), -Inf for y < 0
+//	PdfTranslation(f, c):  X = Y + c ~ f       =>  log f_Y(y) = log f(y + c)
 func checkWrappers(c *core.Ctx, p *packages.Package, d *declIndex) {
 	checkWrappersFor(c, p, d, "NormalDistribution")
 	if c.Tier == "thorough" {
